@@ -156,7 +156,9 @@ theorem sendFromModule_q {s s1 : St} {q q1 : Seq} {amt : Nat} {to : Addr} (e : s
   · cases e
   · split at e
     · cases e
-    · injection e with e; injection e with e1 e2; subst e1; subst e2; exact ⟨rfl, rfl, rfl, rfl⟩
+    · split at e
+      · cases e
+      · injection e with e; injection e with e1 e2; subst e1; subst e2; exact ⟨rfl, rfl, rfl, rfl⟩
 
 theorem burn_q {s s1 : St} {q q1 : Seq} {amt : Nat} (e : burn s q amt = .ok (s1, q1)) :
     s1.ras = s.ras ∧ s1.seqs = s.seqs ∧ q1.addr = q.addr ∧ q1.rollapp = q.rollapp := by
